@@ -573,49 +573,28 @@ func (s *Subtitles) Fragment(f time.Duration) {
 		return
 	}
 
-	// Here we want to simulate fragments of duration f until there are no subtitles left in that period of time
-	var fragmentStartAt, fragmentEndAt = time.Duration(0), f
-	for fragmentStartAt < s.Items[len(s.Items)-1].EndAt {
-		// We loop through subtitles and process the ones that either contain the fragment start at,
-		// or contain the fragment end at
-		//
-		// It's useless processing subtitles contained between fragment start at and end at
-		//             |____________________|             <- subtitle
-		//           |                        |
-		//   fragment start at        fragment end at
-		for i, sub := range s.Items {
-			// Init
+	// Cut every subtitle at each multiple of f it strictly contains: the copies get the first pieces, the
+	// original subtitle becomes the last one. Subtitles are processed one by one so that overlapping or nested
+	// subtitles, or a last subtitle that doesn't end last, don't disturb each other.
+	if f <= 0 {
+		return
+	}
+	var items []*Item
+	for _, sub := range s.Items {
+		var boundary = sub.StartAt / f * f
+		if boundary <= sub.StartAt {
+			boundary += f
+		}
+		for ; boundary < sub.EndAt; boundary += f {
 			var newSub = &Item{}
 			*newSub = *sub
-
-			// A switch is more readable here
-			switch {
-			// Subtitle contains fragment start at
-			// |____________________|                         <- subtitle
-			//           |                        |
-			//   fragment start at        fragment end at
-			case sub.StartAt < fragmentStartAt && sub.EndAt > fragmentStartAt:
-				sub.StartAt = fragmentStartAt
-				newSub.EndAt = fragmentStartAt
-			// Subtitle contains fragment end at
-			//                         |____________________| <- subtitle
-			//           |                        |
-			//   fragment start at        fragment end at
-			case sub.StartAt < fragmentEndAt && sub.EndAt > fragmentEndAt:
-				sub.StartAt = fragmentEndAt
-				newSub.EndAt = fragmentEndAt
-			default:
-				continue
-			}
-
-			// Insert new sub
-			s.Items = append(s.Items[:i], append([]*Item{newSub}, s.Items[i:]...)...)
+			newSub.EndAt = boundary
+			sub.StartAt = boundary
+			items = append(items, newSub)
 		}
-
-		// Update fragments boundaries
-		fragmentStartAt += f
-		fragmentEndAt += f
+		items = append(items, sub)
 	}
+	s.Items = items
 
 	// Order
 	s.Order()
